@@ -54,6 +54,8 @@ class FakeTransport(asyncio.Transport):
     def get_extra_info(self, name, default=None):
         if name == "peername":
             return self.peername
+        if name == "sockname":
+            return ("203.0.113.250", 1965)
         if name == "ssl_object":
             return FakeSSLObject(self.peer_der)
         return default
@@ -170,6 +172,8 @@ class FakeTcp(asyncio.Transport):
     def get_extra_info(self, name, default=None):
         if name == "peername":
             return self.peername
+        if name == "sockname":
+            return ("203.0.113.250", 1965)  # the listener's own address: never a peer's
         if name == "socket":
             return None
         return default
